@@ -115,21 +115,86 @@ Proof.
   exfalso. unfold utf8_ok in H. cbn [length] in H. vm_compute in H. discriminate H.
 Qed.
 
+(* ------------------------------------------------------------------ f64 -> f32 -> f64 *)
+Ltac pows :=
+  change (29 - 1) with 28 in *;
+  repeat match goal with
+         | |- context [Z.pow 2 (Zpos ?p)] =>
+             let v := eval vm_compute in (Z.pow 2 (Zpos p)) in change (Z.pow 2 (Zpos p)) with v
+         | H : context [Z.pow 2 (Zpos ?p)] |- _ =>
+             let v := eval vm_compute in (Z.pow 2 (Zpos p)) in change (Z.pow 2 (Zpos p)) with v in H
+         end.
+
+Lemma f32_widen_fields sg e32 m32 :
+  0 <= sg <= 1 -> 0 <= e32 < 256 -> 0 <= m32 < 2 ^ 23 ->
+  let y := sg * 2 ^ 31 + e32 * 2 ^ 23 + m32 in
+  y / 2 ^ 31 = sg /\ (y / 2 ^ 23) mod 256 = e32 /\ y mod 2 ^ 23 = m32 /\ 0 <= y < 2 ^ 32.
+Proof. intros Hs He Hm y. unfold y. pows. lia. Qed.
+
+(* the exact f32 values (zero, infinity, normal) survive `as f32` then `as f64` *)
+Lemma f32_roundtrip x :
+  f32_representable x = true ->
+  in_u 32 (f64_to_f32 x) = true /\ f32_to_f64 (f64_to_f32 x) = x.
+Proof.
+  unfold f32_representable. intros H. apply andb_true_iff in H. destruct H as [Hu H].
+  apply in_u_true in Hu.
+  set (sg := x / 2 ^ 63). set (e := (x / 2 ^ 52) mod 2048) in *. set (m := x mod 2 ^ 52) in *.
+  assert (Hx : x = sg * 2 ^ 63 + e * 2 ^ 52 + m) by (unfold sg, e, m; pows; lia).
+  assert (Hsg : 0 <= sg <= 1) by (unfold sg; pows; lia).
+  assert (He : 0 <= e < 2048) by (unfold e; lia).
+  assert (Hm : 0 <= m < 2 ^ 52) by (unfold m; pows; lia).
+  assert (Y : exists e32 m32, 0 <= e32 < 256 /\ 0 <= m32 < 2 ^ 23 /\
+            f64_to_f32 x = sg * 2 ^ 31 + e32 * 2 ^ 23 + m32 /\
+            ((e32 = 0 /\ m32 = 0 /\ e = 0 /\ m = 0) \/
+             (e32 = 255 /\ m32 = 0 /\ e = 2047 /\ m = 0) \/
+             (0 < e32 < 255 /\ e = e32 + 896 /\ m = m32 * 2 ^ 29))).
+  { unfold f64_to_f32. cbv zeta. fold sg. fold e. fold m.
+    apply orb_true_iff in H. destruct H as [H|H]; [apply orb_true_iff in H; destruct H as [H|H]|].
+    - (* zero *) exists 0, 0. assert (e = 0 /\ m = 0) as [E0 M0] by lia.
+      rewrite E0. cbn [Z.eqb]. change (0 =? 2047) with false. change (0 =? 0) with true. cbv iota.
+      pows. repeat split; try lia.
+    - (* infinity *) exists 255, 0. assert (e = 2047 /\ m = 0) as [E0 M0] by lia.
+      rewrite E0, M0. change (2047 =? 2047) with true. change (0 =? 0) with true. cbv iota.
+      pows. repeat split; try lia.
+    - (* normal *) exists (e - 896), (m / 2 ^ 29).
+      assert (897 <= e <= 1150 /\ m mod 2 ^ 29 = 0) as [E0 M0] by lia.
+      replace (e =? 2047) with false by lia. replace (e =? 0) with false by lia.
+      replace (e - 1023 >=? -126) with true by lia.
+      unfold round_shift. pows.
+      replace ((4503599627370496 + m) mod 536870912) with 0 by lia.
+      replace ((4503599627370496 + m) / 536870912) with (8388608 + m / 536870912) by lia.
+      change (0 >? 268435456) with false. change (0 =? 268435456) with false. cbn [orb andb].
+      replace ((e - 1023 + 126) * 8388608 + (8388608 + m / 536870912) >=? 255 * 8388608) with false by lia.
+      repeat split; try lia. }
+  destruct Y as [e32 [m32 [He32 [Hm32 [Y Hcase]]]]].
+  destruct (f32_widen_fields sg e32 m32 Hsg He32 Hm32) as [F1 [F2 [F3 F4]]].
+  rewrite Y. split; [apply in_u_true; change (2 ^ 32) with (2 ^ 32); exact F4|].
+  unfold f32_to_f64. cbv zeta. rewrite F1, F2, F3.
+  destruct Hcase as [[A [B [C D]]]|[[A [B [C D]]]|[A [C D]]]].
+  - subst e32 m32. change (0 =? 0) with true. cbv iota. rewrite Hx, C, D. lia.
+  - subst e32 m32. change (255 =? 0) with false. change (255 =? 255) with true. change (0 =? 0) with true.
+    cbv iota. rewrite Hx, C, D. pows. lia.
+  - replace (e32 =? 0) with false by lia. replace (e32 =? 255) with false by lia.
+    rewrite Hx, C, D. pows. lia.
+Qed.
+
 Definition ntb (t : dtype) (v : value) : bool :=
   match t, v with TBlob, VBlob b => is_toast b | _, _ => false end.
 
 Lemma fixed_roundtrip t v :
-  fits t v = true -> is_vnull v = false -> is_var t = false -> nf4 t v = false ->
+  fits t v = true -> is_vnull v = false -> is_var t = false ->
   exists dec, fixed_getter t = Some (fsz t, dec) /\ dec (payload t v) = v.
 Proof.
-  intros Hf Hn Hv H4.
-  destruct v; try discriminate Hn; destruct t; try discriminate Hf; try discriminate Hv; try discriminate H4;
+  intros Hf Hn Hv.
+  destruct v; try discriminate Hn; destruct t; try discriminate Hf; try discriminate Hv;
     cbn [fits] in Hf; splitb;
     eexists; (split; [reflexivity|]); cbn [payload].
   - (* bool *) destruct b; reflexivity.
   - (* int2 *) f_equal. apply (sle_le 2); [lia | assumption].
   - (* int4 *) f_equal. apply (sle_le 4); [lia | assumption].
   - (* int8 *) f_equal. apply (sle_le 8); [lia | assumption].
+  - (* float4 *) destruct (f32_roundtrip bits Hf) as [A B].
+    f_equal. rewrite (from_le_le_u 4) by exact A. exact B.
   - (* float8 *) f_equal. apply (from_le_le_u 8). assumption.
   - (* date *) f_equal. apply (sle_le 4); [lia | assumption].
   - (* time *) f_equal. apply (sle_le 8); [lia | assumption].
